@@ -990,9 +990,17 @@ fn font_stages<P: FontTableProvider + SfntVersion>(prov: &P, args: &Args, tuples
                 })
                 .collect();
             let features = Features::Mask(FeatureMask::default());
-            for (glyphs, kerning) in [(mapped, true), (direct.clone(), true), (direct, false)] {
+            // the caller's script, then the scripts with a shaper of their own (the direct glyph
+            // run only: what matters here is which lookups of the font get applied and how)
+            let mut runs = vec![(mapped, true, args.script), (direct.clone(), true, args.script), (direct.clone(), false, args.script)];
+            for script in [tag::ARAB, tag::DEVA, tag::THAI, tag::KHMR, tag::SYRC, tag::MYM2] {
+                if script != args.script {
+                    runs.push((direct.clone(), true, script));
+                }
+            }
+            for (glyphs, kerning, script) in runs {
                 let tuple = if kerning { tuples.first().map(|t| t.as_tuple()) } else { tuples.get(1).map(|t| t.as_tuple()) };
-                let infos = match font.shape(glyphs, args.script, None, &features, tuple, kerning) {
+                let infos = match font.shape(glyphs, script, None, &features, tuple, kerning) {
                     Ok(infos) => infos,
                     Err((_, infos)) => infos,
                 };
